@@ -37,6 +37,7 @@ type Config struct {
 	Tier             string
 	Expect           map[string]string // obligation id -> "sat" (known finding expected) - informational
 	NoIfConv         bool
+	InitBudget       int
 }
 
 type Obligation struct {
@@ -105,6 +106,7 @@ type Run struct {
 	reachMap     map[string]*ReachRec
 	expectReach  []string
 	errorStringT types.Type
+	bigIntT      types.Type
 	pathNo       int
 	incSet       map[string]bool
 	violSeen     map[string]int
@@ -113,6 +115,7 @@ type Run struct {
 	start        time.Time
 	funcIndex    map[string]*ssa.Function
 	ifconv       int
+	lastLog      time.Time
 }
 
 func (r *Run) push(p []bool) { r.work = append(r.work, p) }
@@ -409,6 +412,10 @@ func (r *Run) Execute() *EntryResult {
 		p := r.work[len(r.work)-1]
 		r.work = r.work[:len(r.work)-1]
 		r.runPath(p)
+		if time.Since(r.lastLog) > 15*time.Second {
+			r.lastLog = time.Now()
+			fmt.Fprintf(os.Stderr, "  .. %s: %d paths (%d done), %d pending, depth %d, %d feas queries, %.0fs\n", r.cfg.Entry, r.res.Paths, r.res.PathsDone, len(r.work), len(p), r.feasQ, time.Since(r.start).Seconds())
+		}
 	}
 	res := r.res
 	for _, id := range r.expectReach {
